@@ -495,3 +495,41 @@ Theorem handle_incoming_de_indep : forall de local remote s,
 Proof.
   intros de local remote [ch D]. rewrite handle_incoming_de_pure, handle_incoming_pure. reflexivity.
 Qed.
+
+(* ---- several streams on one bus ---- *)
+
+Lemma triple_eqb_spec a b : triple_eqb a b = true <-> a = b.
+Proof.
+  destruct a as [[p1 l1] r1], b as [[p2 l2] r2]. unfold triple_eqb.
+  rewrite !andb_true_iff, !bytes_eqb_spec. split; [intros [[-> ->] ->]; reflexivity|intros E; inversion E; auto].
+Qed.
+
+(* a lookup is served by an instance created for exactly the same triple *)
+Lemma bus_lookup_own live t : fst (bus_lookup live t) = t.
+Proof.
+  unfold bus_lookup. destruct (find (triple_eqb t) live) as [t'|] eqn:E; [|reflexivity].
+  apply find_some in E as [_ E]. apply triple_eqb_spec in E. cbn [fst]. congruence.
+Qed.
+
+(* any number of streams, any live lookups, any disposal schedule, any
+   chunkings, both kinds of reader: each accepted stream is handed to the
+   handler resolved for its own (pid, local, remote) and the outcome of a
+   stream does not depend on the other streams *)
+Theorem bus_run_spec : forall evs live, bus_run live evs = bus_spec evs.
+Proof.
+  induction evs as [|e r IH]; intros live; [reflexivity|]. destruct e as [de l rm s|t]; cbn [bus_run bus_spec].
+  - rewrite handle_incoming_de_indep.
+    destruct (handle_incoming l rm s) as [pid l' r' rest|k|] eqn:E; [|rewrite IH; reflexivity|rewrite IH; reflexivity].
+    destruct s as [ch D]. apply handle_incoming_sound in E as (-> & -> & _).
+    pose proof (bus_lookup_own live (pid, l, rm)) as O.
+    destruct (bus_lookup live (pid, l, rm)) as [sv live']. cbn [fst] in O. subst sv. rewrite IH. reflexivity.
+  - apply IH.
+Qed.
+
+Corollary bus_run_served_own : forall evs live,
+  Forall (fun o => match o with Served own sv _ => sv = own | _ => True end) (bus_run live evs).
+Proof.
+  intros evs live. rewrite bus_run_spec. induction evs as [|e r IH]; [constructor|].
+  destruct e as [de l rm s|t]; cbn [bus_spec]; [|exact IH].
+  destruct (handle_incoming l rm s); constructor; auto.
+Qed.
